@@ -1433,6 +1433,11 @@ func main() {
 		textBefore("leveldb/db.go", "DB.has", "db.getMems()", "db.s.version()") &&
 		textBefore("leveldb/db_iter.go", "DB.newRawIterator", "db.getMems()", "db.s.version()"),
 		"`DB.get`, `DB.has` and `DB.newRawIterator` take the buffers (`getMems`) before the version")
+	o.boolean("pickSaveCopiesCursor", allAssignsCopy("leveldb/session_compaction.go", "compaction.save", "c.snapTPtrs") &&
+		allAssignsCopy("leveldb/session_compaction.go", "compaction.restore", "c.tPtrs") &&
+		countStmts("leveldb/session_compaction.go", "compaction.save", "c.snapTPtrs = append(c.snapTPtrs[:0], c.tPtrs...)") == 1 &&
+		countStmts("leveldb/session_compaction.go", "compaction.restore", "c.tPtrs = append(c.tPtrs[:0], c.snapTPtrs...)") == 1,
+		"`compaction.save` COPIES the `baseLevelForKey` cursor (`tPtrs`) and `restore` copies it back: a retried compaction restarts from the saved cursor, not from where the failed attempt left it")
 	o.boolean("ordPointReadsHoldSnapshot", topStmtBefore("leveldb/db.go", "DB.Get", "se := db.acquireSnapshot()", "defer db.releaseSnapshot(se)") &&
 		topStmtBefore("leveldb/db.go", "DB.Get", "defer db.releaseSnapshot(se)", "return db.get(nil, nil, key, se.seq, ro)") &&
 		topStmtBefore("leveldb/db.go", "DB.Has", "se := db.acquireSnapshot()", "defer db.releaseSnapshot(se)") &&
